@@ -1,0 +1,38 @@
+//! Verification hooks (only compiled with feature `verif-hooks`).
+//!
+//! Nothing in here changes behaviour unless a hook is explicitly armed by the
+//! deterministic simulator living outside of this repository.
+#![allow(missing_docs, clippy::missing_panics_doc, clippy::type_complexity)]
+
+use std::{
+    collections::BTreeMap,
+    sync::{Mutex, RwLock},
+};
+
+type NonceSource = Box<dyn Fn(&[u8], &mut [u8]) + Send + Sync>;
+
+static NONCE_SOURCE: RwLock<Option<NonceSource>> = RwLock::new(None);
+static PROBES: Mutex<BTreeMap<&'static str, u64>> = Mutex::new(BTreeMap::new());
+
+/// Arm (Some) or disarm (None) the nonce source. When armed, the nonce of every
+/// encrypted message is computed by the given function from the plaintext.
+pub fn set_nonce_source(source: Option<NonceSource>) {
+    *NONCE_SOURCE.write().unwrap() = source;
+}
+
+/// Called from `Key::encrypt_data` directly after the random nonce has been drawn.
+pub(crate) fn nonce_hook(plaintext: &[u8], nonce: &mut [u8]) {
+    if let Some(source) = NONCE_SOURCE.read().unwrap().as_ref() {
+        source(plaintext, nonce);
+    }
+}
+
+/// Count that a branch of interest was reached.
+pub fn probe(name: &'static str) {
+    *PROBES.lock().unwrap().entry(name).or_insert(0) += 1;
+}
+
+/// Take (and reset) all probe counters.
+pub fn take_probes() -> BTreeMap<&'static str, u64> {
+    std::mem::take(&mut *PROBES.lock().unwrap())
+}
